@@ -131,7 +131,11 @@ static spif_unixsockaddr_t mk_unaddr(void) { return calloc(1, sizeof(struct sock
 static void *c16_ctx_handler(char *a, void *b) { return b; }
 static char *c16_builtin(char *a) { return a; }
 
+#ifdef C16_PROBE
+#include "c16_probe_cases.inc"     /* candidates: pointer positions without a guard of their own (tools/gen_c16.py --probe-rows) */
+#else
 #include "c16_cases.inc"
+#endif
 
 /* (runtime debug level, silent) cells */
 static const int CELLS_Q[][2] = { {0, 0}, {1, 0}, {1, 1}, {5, 0} };
@@ -142,7 +146,6 @@ static void run_child(struct c16_case *c, int level, int silent_on, int variant,
     struct c16_res res;
     memset(&res, 0, sizeof res);
     dup2(efd, 2);
-    libast_program_name = "c16"; libast_program_version = "0";
     DEBUG_LEVEL = 0;
     libast_print_warning("warm-up %d\n", 1);          /* stdio warmed up outside the measured window */
     if (__sanitizer_install_malloc_and_free_hooks) __sanitizer_install_malloc_and_free_hooks(mhook, fhook);
@@ -153,6 +156,39 @@ static void run_child(struct c16_case *c, int level, int silent_on, int variant,
     _exit(0);
 }
 
+#ifdef C16_PROBE
+/* probe mode (not a check): run every candidate at levels 0 and 1, variants 0 and 1, and print what happened; checks/c16_probe.py
+ * turns the positions that demonstrably fail soft into gen/c16_transitive.tsv */
+int main(int argc, char **argv)
+{
+    signal(SIGPIPE, SIG_IGN);
+    for (long ci = 0; ci < C16_NCASES; ci++) {
+        struct c16_case *c = &C16_CASES[ci];
+        for (int level = 0; level <= 1; level++) for (int variant = 0; variant <= 1; variant++) {
+            int rp[2], ep[2];
+            if (pipe(rp) || pipe(ep)) return 3;
+            fflush(stdout);
+            pid_t pid = fork();
+            if (pid == 0) { close(rp[0]); close(ep[0]); alarm(20); run_child(c, level, 0, variant, rp[1], ep[1]); }
+            close(rp[1]); close(ep[1]);
+            char errbuf[6000]; size_t eo = 0; ssize_t k;
+            while ((k = read(ep[0], errbuf + eo, sizeof errbuf - 1 - eo)) > 0) { eo += (size_t) k; if (eo >= sizeof errbuf - 1) { char sink[4096]; while (read(ep[0], sink, sizeof sink) > 0) { } break; } }
+            errbuf[eo] = 0;
+            struct c16_res res; memset(&res, 0, sizeof res);
+            ssize_t got = read(rp[0], &res, sizeof res);
+            close(rp[0]); close(ep[0]);
+            int st = 0; waitpid(pid, &st, 0);
+            char *diag = strstr(errbuf, "warm-up 1\n"); diag = diag ? diag + 10 : errbuf;
+            int fatal_path = WIFEXITED(st) && WEXITSTATUS(st) == 255 && strstr(errbuf, "FATAL:") != NULL;
+            int normal = WIFEXITED(st) && WEXITSTATUS(st) == 0 && got == (ssize_t) sizeof res && res.reached_end;
+            printf("P\t%ld\t%d\t%d\t%s\t%s\t%ld\t%ld\t%d\t%d\t%d\n", ci, level, variant, normal ? "normal" : fatal_path ? "fatal" : "crash",
+                   res.got[0] ? res.got : "void", res.mallocs, res.heap_delta, res.snap_changed,
+                   strstr(diag, "ASSERT failed") != NULL, strstr(diag, "REQUIRE failed") != NULL);
+        }
+    }
+    return 0;
+}
+#else
 int main(int argc, char **argv)
 {
     vh_init(argc, argv, "C16");
@@ -218,3 +254,4 @@ int main(int argc, char **argv)
     for (int i = 0; C16_SKIPPED[i]; i++) vh_count("skipped_rows", 1);
     return vh_finish();
 }
+#endif
